@@ -82,6 +82,30 @@ def rule1_init(ctx, fl):
         ctx.ob('C15.1', 'fini: uninit stored last', all(g.dominates_f(x, s) for x in fr + ex) and bool(fr) and bool(ex) and
                not [x for x in g.reachable_from(s) if x.op == 'call' and x.callee and not x.d.get('intrinsic')],
                'the state is reset only after everything has been torn down', loc=s.loc)
+    # the exit path tells every worker to stop before the OS threads are joined
+    have_notify = ctx.ssa(INITF, fl).fn('myth_notify_workers_exit') is not None     # static: vanishes when nobody calls it
+    xv = ctx.view(INITF, roots=['myth_startpoint_exit_ex_body'] + (['myth_notify_workers_exit'] if have_notify else []),
+                  stops=('myth_notify_workers_exit', 'myth_cleanup_worker', 'myth_queue_trypass', 'myth_wakeup_all_force'), flavour=fl)
+    xb = ctx.need_fn(xv, 'myth_startpoint_exit_ex_body')
+    nt = call_sites(xb, 'myth_notify_workers_exit')
+    ctx.ob('C15.1', 'exit path raises the workers\' exit flags on every path', len(nt) == 1 and xb.always_passes(xb.entry_inst(), nt),
+           'myth_notify_workers_exit(): workers that are never told to stop keep scheduling and the joins of myth_fini never return', loc=xb.loc)
+    nf = xv.fn('myth_notify_workers_exit') if have_notify else None
+    fl_st = [st for st in nf.stores_to('myth_running_env.exit_flag') if const_int(st.ops[0]) == 1] if nf is not None else []
+    okn = False
+    for st in fl_st:
+        lp = lib.loop_containing(nf, st)
+        ix = [x for x in nf.ap(st.ops[1]).steps if x[0] in ('p', 'i')]
+        if lp is None or not ix or not isinstance(ix[0][1], str):
+            continue
+        for ic in nf.order:
+            if ic.op == 'icmp' and ic.pred == 'slt' and ic.block.id == lp['header'] and 'n_workers' in expr_str(nf, ic.ops[1]):
+                ph = nf.get(nf.strip(ic.ops[0]))
+                if ph is not None and ph.op == 'phi' and any(const_int(v_) == 0 for v_, b_ in ph.d['incoming']) and \
+                        ph.id in nf.sources(ix[0][1], through_arith=True) | {nf.strip(ix[0][1])}:
+                    okn = True
+    ctx.ob('C15.1', 'notify: exit flag raised for every worker 0..n_workers-1', okn, 'for (i = 0; i < n_workers; i++) g_envs[i].exit_flag = 1',
+           loc=nf.loc if nf is not None else xb.loc)
     ctx.ob('C15.1', 'fini: migrates home before joining', len(ex) == 1 and const_int(ex[0].args[0]) == 0 and
            all(g.dominates_f(ex[0], j) for j in joins), 'the main thread returns to worker 0 first', loc=g.loc)
     for j in joins:
@@ -497,6 +521,8 @@ INITC = 'src/myth_init.c'
 BIND = 'src/myth_bind_worker.c'
 INITH = 'src/myth_init_func.h'
 MUTANTS = [
+    {'name': 'exit path forgets to tell the workers to stop (sweep M0520)', 'expect': 'C15.1',
+     'edits': [('src/myth_worker_func.h', "  //Set exit flag\n  myth_notify_workers_exit();\n  //Cleanup", "  //Cleanup")]},
     {'name': 'MYTH_NUM_WORKERS read but not parsed (sweep M0324)', 'expect': 'C15.4',
      'edits': [('src/myth_init_func.h', "  if (env) {\n    nw = atoi(env);\n  } else {\n    env = getenv(ENV_MYTH_WORKER_NUM);", "  if (env) {\n    ;\n  } else {\n    env = getenv(ENV_MYTH_WORKER_NUM);")]},
     {'name': 'stack size default parses an unset variable (sweep M0330)', 'expect': 'C15.4',
